@@ -842,9 +842,55 @@ impl VM {
                 ));
             }
         }
-        // For non-constraint values in constraint position (backward compat),
-        // this is a no-op since typecheck already verified shape compatibility
+        // A plain value in constraint position is an exemplar: the static typecheck
+        // compared shapes where it could derive them, but a value whose shape it could
+        // not derive (the result of a function with an untyped parameter, say) gets
+        // here unchecked. Compare the value itself with the exemplar.
+        else if !Self::conforms_to_exemplar(constraint.as_ref(), val.as_ref()) {
+            let ir_val: crate::build::ir::Val = val.as_ref().into();
+            let ir_ex: crate::build::ir::Val = constraint.as_ref().into();
+            return Err(Error::new(
+                format!("Value {} does not satisfy constraint {}", ir_val, ir_ex).into(),
+                val_pos,
+            ));
+        }
         Ok(())
+    }
+
+    /// Does `val` have the shape of the exemplar `ex`: the same primitive type (NULL
+    /// fits anything); tuples agreeing on the fields they share, with one field set
+    /// contained in the other; lists where every element of one side has the shape of
+    /// some element of the other. Functions and modules are left to the static check.
+    fn conforms_to_exemplar(ex: &Value, val: &Value) -> bool {
+        match (ex, val) {
+            (P(Empty), _) | (_, P(Empty)) => true,
+            (P(Bool(_)), P(Bool(_)))
+            | (P(Int(_)), P(Int(_)))
+            | (P(Float(_)), P(Float(_)))
+            | (P(Str(_)), P(Str(_))) => true,
+            (P(_), _) | (_, P(_)) => false,
+            (C(Tuple(fe, _)), C(Tuple(fv, _))) => {
+                let get = |fs: &Vec<(Rc<str>, Rc<Value>)>, k: &str| {
+                    fs.iter().rev().find(|(n, _)| n.as_ref() == k).map(|(_, v)| v.clone())
+                };
+                let ex_in_val = fe.iter().all(|(k, _)| get(fv, k).is_some());
+                let val_in_ex = fv.iter().all(|(k, _)| get(fe, k).is_some());
+                (ex_in_val || val_in_ex)
+                    && fe.iter().all(|(k, x)| match get(fv, k) {
+                        Some(y) => Self::conforms_to_exemplar(x, y.as_ref()),
+                        None => true,
+                    })
+            }
+            (C(List(le, _)), C(List(lv, _))) => {
+                le.iter()
+                    .all(|x| lv.iter().any(|y| Self::conforms_to_exemplar(x, y)))
+                    || lv
+                        .iter()
+                        .all(|y| le.iter().any(|x| Self::conforms_to_exemplar(x, y)))
+            }
+            (C(_), C(_)) => false,
+            _ => true,
+        }
     }
 
     fn op_bind(&mut self, strict: bool) -> Result<(), Error> {
